@@ -9,10 +9,14 @@ TRIAGE = {
     ("exponax/_interpolation.py", 251): "outside the properties: only changes what happens to the Nyquist mode of an even grid when up-sampling (C15 quantifies over Nyquist-free states; the mean is unaffected)",
     ("exponax/_interpolation.py", 275): "outside the properties: only changes what happens to the Nyquist mode of an even target grid when down-sampling (mean unaffected)",
     ("exponax/_spectral.py", 442): "equivalent: inside the even-N branch, N / 2 == N // 2",
+    ("exponax/_spectral.py", 847): "equivalent: the domain extent cancels in the projection (as the comment in the source says)",
+    ("exponax/ic/_truncated_fourier_series.py", 85): "equivalent: JAX clamps the out-of-range index 1 of a length-1 array to its only element",
+    ("exponax/_spectral.py", 1023): "equivalent: the norm array has a leading axis of length 1 and JAX clamps the out-of-range index 1 to 0",
+    ("exponax/ic/_multi_channel.py", 79): "equivalent: both sequences always have the same length",
     ("exponax/_spectral.py", 853): "equivalent: keepdims=False broadcasts to the same result",
     ("exponax/_spectral.py", 1016): "equivalent: dk = k[1] + k[0] = 1 + 0",
 }
-rows = [json.loads(l) for l in open(sys.argv[1])]
+rows = [json.loads(l) for f in sys.argv[1:] for l in open(f)]
 rows.sort(key=lambda r: r["index"])
 by = collections.Counter((r["detected_by"] or "SURVIVED").split(":")[0] for r in rows)
 out = ["# Own systematic mutation sweep (tools/mutsweep.py)", "",
